@@ -111,7 +111,7 @@ def _check_in_declared_bounds(case, received: dict, rec, what):
         val = received.get(v["arg"])
         if val is None:
             continue
-        comps = [val] if v["scalar"] else list(val)
+        comps = [val] if v["scalar"] else [float(x) for x in np.atleast_1d(val)]  # (a wrongly shaped value is reported by the slice oracle, not here)
         b = v["boundaries"]
         pairs = [b] * v["n"] if not isinstance(b[0], list) else b
         for j, (x, (lo, hi)) in enumerate(zip(comps, pairs)):
